@@ -31,6 +31,13 @@
 (*        one of the tasks that were blocked.                                 *)
 (*   (R2) Barrier::new(0) behaves as Barrier::new(1): every arrival releases  *)
 (*        a group of one (C05_bar_group_size with max 1 bound).               *)
+(*   (R0) ported to the repaired once.rs: call_once has a scheduling point     *)
+(*        between the end of the initializer and once_complete                 *)
+(*        (C05_call_once_code_shape, C05_call_once_winner_tail_shape).  The    *)
+(*        transition system already interleaved arbitrary steps between any    *)
+(*        two blocks, so C05_once_exactly_one / C05_once_return_after_done     *)
+(*        hold unchanged; C05_once_init_window states what the other tasks see *)
+(*        in the new window, C05_ex_once_window exhibits it.                   *)
 (*   (R3) liveness clauses (always does)     are stated as: in every state of   *)
 (*        the transition system the releasing block does not panic and makes  *)
 (*        the waiters runnable; the only side conditions are the ones the     *)
@@ -318,10 +325,17 @@ Theorem C05_call_once_code_shape : forall o mx body kont,
         | LkPoisoned => Panic
         | _ => atomic_b (once_test_block o)
                  (fun done => if done then mutex_unlock_code mx kont
-                              else body (atomic_u (fun e st => once_complete e st o) (mutex_unlock_code mx kont)))
+                              else body (Switch (atomic_u (fun e st => once_complete e st o) (mutex_unlock_code mx kont))))
         end)).
 Proof. exact call_once_code_shape. Qed.
 Print Assumptions C05_call_once_code_shape.
+
+(* the winner's tail after the repair of once.rs: initializer; SWITCH; once_complete; SWITCH; release; kont *)
+Theorem C05_call_once_winner_tail_shape : forall o mx kont,
+  Switch (atomic_u (fun e st => once_complete e st o) (mutex_unlock_code mx kont)) =
+  Switch (atomic_u (fun e st => once_complete e st o) (Switch (atomic_u (mutex_release_block mx) kont))).
+Proof. exact call_once_winner_tail_shape. Qed.
+Print Assumptions C05_call_once_winner_tail_shape.
 
 Theorem C05_once_init_inv : forall o mx s, once_init o mx s -> OnceInv o mx s.
 Proof. exact once_init_inv. Qed.
@@ -343,6 +357,17 @@ Theorem C05_once_return_after_done : forall o mx s l s',
   is_complete (once_st o s') = true.
 Proof. exact once_return_after_done. Qed.
 Print Assumptions C05_once_return_after_done.
+
+(* while the winner is between its flag test and once_complete - running the initializer, or stopped
+   at the scheduling point that now follows it - the flag is false, the state is not Complete, every
+   other call_once must take the lock, and nobody can take it *)
+Theorem C05_once_init_window : forall o mx s,
+  OnceInv o mx s -> held mx s -> o_phase s = PhInit ->
+  once_fl o s = false /\ is_complete (once_st o s) = false /\
+  (forall e' st' t need, me (o_e s) = Some t -> once_enter (o_e s) (o_s s) o = Some (e', st', need) -> need = true) /\
+  (forall e' st' p, mutex_set_holder (o_e s) (o_s s) mx = Some (e', st', p) -> False).
+Proof. exact once_init_window. Qed.
+Print Assumptions C05_once_init_window.
 
 Theorem C05_once_complete_stable : forall o mx s l s',
   o <> mx -> OnceInv o mx s -> ostep o mx s l s' ->
@@ -716,6 +741,26 @@ Proof. vm_compute. reflexivity. Qed.
 Example C05_ex_once_race_0 :
   outcome_of (run_exec script_sched MSNone 200 once_main once_store []) =
   ([(0, 7%N, [0%N]); (0, 9%N, [0%N]); (0, 8%N, [0%N]); (1, 8%N, [1%N])], OPass).
+Proof. vm_compute. reflexivity. Qed.
+
+(* the window opened by the repair: task 1 has finished its initializer (Log 9) and stands at the new
+   scheduling point; task 0 runs there: is_completed answers false (Log 6 [0]) and its call_once waits
+   for the lock; task 1 completes and returns, then task 0 returns without running its initializer *)
+Definition once_prog2 (who : N) : code :=
+  call_once_code 0 1 (fun k => Log 7 [who] (Log 9 [who] k)) (Log 8 [who] Ret).
+Definition once_probe : code :=
+  Switch (atomic_b (fun e st => once_is_completed e st 0) (fun b => Log 6 [b2n b] (once_prog2 0))).
+Definition once_main2 : code := Switch (SpawnNow (once_prog2 1) (fun _ => once_probe)).
+
+Example C05_ex_once_window :
+  outcome_of (run_exec script_sched MSNone 200 once_main2 once_store [1;1;1;1;0;0;0;1;1;1;0;0]) =
+  ([(1, 7%N, [1%N]); (1, 9%N, [1%N]); (0, 6%N, [0%N]); (1, 8%N, [1%N]); (0, 8%N, [0%N])], OPass).
+Proof. vm_compute. reflexivity. Qed.
+
+(* ... whereas once task 1 has returned is_completed answers true *)
+Example C05_ex_once_after :
+  outcome_of (run_exec script_sched MSNone 200 once_main2 once_store [1;1;1;1;1;1;1;1;1;1;0;0]) =
+  ([(1, 7%N, [1%N]); (1, 9%N, [1%N]); (1, 8%N, [1%N]); (0, 6%N, [1%N]); (0, 8%N, [0%N])], OPass).
 Proof. vm_compute. reflexivity. Qed.
 
 (* a third call after completion returns through once_enter, without touching the mutex *)
